@@ -185,6 +185,10 @@ impl PayloadSource for SharedHistory {
 
     fn full(&self) -> (State, Self::Set) {
         let read = self.read();
+        #[cfg(routinator_verif)]
+        crate::verif::trace("RtrFull", &[
+            ("serial", u32::from(read.serial()) as i64),
+        ]);
         (
             State::from_parts(read.rtr_session(), read.serial()),
             read.current.clone().unwrap_or_default().arc_iter(),
@@ -196,6 +200,11 @@ impl PayloadSource for SharedHistory {
         if read.rtr_session() != state.session() {
             return None
         }
+        #[cfg(routinator_verif)]
+        crate::verif::trace("RtrDiff", &[
+            ("from", u32::from(state.serial()) as i64),
+            ("serial", u32::from(read.serial()) as i64),
+        ]);
         read.delta_since(state.serial()).map(|delta| {
             (
                 State::from_parts(read.rtr_session(), read.serial()),
